@@ -124,6 +124,16 @@ struct Ev
   }
 };
 
+// the wide encoding as a JSON value of its own (for lists of wide values)
+inline std::string wide_json(__int128 v)
+{
+  Ev e("x");
+  size_t before = e.s.size();
+  e.wide("v", v);
+  size_t colon = e.s.find("\"v\":", before);
+  return e.s.substr(colon + 4);
+}
+
 struct Out
 {
   FILE* f = nullptr;
